@@ -51,7 +51,8 @@ EPS = {  # endpoint sets: (ready, notready)
     "e2": (["1", "2"], []),
     "e3": (["2"], ["3"]),
     "e4": (["3", "1", "2"], []),
-    "e5": (["1"], [], ["4"]),      # third element: ready addresses of a second subset, same port names, port 8081
+    "e5": (["1"], [], ["4"]),
+    "e6": (["1"], ["2"]),          # e2 with address 2 not ready: only the readiness of one address differs      # third element: ready addresses of a second subset, same port names, port 8081
 }
 
 SVC_IP = {"s1": "10.1.0.", "s2": "10.2.0.", "s3": "10.3.0.", "auth": "10.9.0."}
